@@ -11,7 +11,8 @@ def addrs : List String :=
    "6:fe800000000000000000000000000001%2:3478", "6:fe800000000000000000000000000001%3:3478",
    "6:fe800000000000000000000000000001%3.4660:3478", "6:20010db8000000000000000000000001%0.7:3478"]
 def tids : List Nat :=
-  [0x01, 0x02030405060708090a0b0c0d, 0xffffffffffffffffffffffff, 0x2112a442, 0x700000000000000000000001]
+  [0x01, 0x02030405060708090a0b0c0d, 0xffffffffffffffffffffffff, 0x2112a442, 0x700000000000000000000001,
+   0x10000000100000000, 0x800000000000000000000001]
 
 /-- socket address text -> injective number (family, IP, IPv6 scope id, port) -/
 def addrNum (s : String) : Option Nat :=
@@ -114,14 +115,24 @@ def buildSend (cls tid : Nat) (integ : String) (payload : List (Nat × Bytes)) :
 /-- the message `H` hands to `handle_stun`, rebuilt with the Lean builder model: SOFTWARE "peer",
     optional integrity, optional corruption of one HMAC bit -/
 def buildIncoming (kindm : String) (tid : Nat) (sign corrupt : String) : Option Bytes := do
-  -- <kind>[@<method>]
-  let (kind, meth) ← match kindm.splitOn "@" with
+  -- <kind>[@<method>][+<error code>]
+  let (km, code) ← match kindm.splitOn "+" with
+    | [k] => some (k, none)
+    | [k, c] => c.toNat?.map (k, some ·)
+    | _ => none
+  let (kind, meth) ← match km.splitOn "@" with
     | [k] => some (k, 1)
     | [k, m] => (hexNat m).map (k, ·)
     | _ => none
   let cls := if kind == "ok" then 2 else if kind == "err" then 3 else if kind == "req" then 0 else 1
   let b0 := Builder.new (Spec.interleave cls meth) tid
   let b1 ← (b0.add (.typed (.software (asciiBytes "peer")))).toOption
+  let b1 ← match code with
+    | none => some b1
+    | some c => do
+      let x ← (b1.add (.typed (.errorCode c (asciiBytes "x")))).toOption
+      let x ← (x.add (.typed (.realm (asciiBytes "realm")))).toOption
+      (x.add (.typed (.nonce (asciiBytes "nonce")))).toOption
   let (b2, signed) ← match sign.splitOn ":" with
     | ["1", k] => (b1.addIntegrity MsgFam.refHashes (keyCreds k) .sha1).toOption.map (·, true)
     | ["2", k] => (b1.addIntegrity MsgFam.refHashes (keyCreds k) .sha256).toOption.map (·, true)
